@@ -25,6 +25,7 @@ const (
 	SBreak
 	SContinue
 	SSwitch
+	SGotoIf // a hand-written conditional jump command: goto_if_set(F, L) / goto_if_unset(F, L)
 )
 
 type Stmt struct {
@@ -32,6 +33,8 @@ type Stmt struct {
 	Name    string // SCmd: source text of the command (e.g. "c1", "foo(1, X)"); SLabel/SGoto: label
 	Out     string // SCmd: expected emitted line (without the tab); "" means Name
 	Global  bool   // SLabel: written as L(global):
+	Flag    string // SGotoIf: the flag tested
+	WantSet bool   // SGotoIf: goto_if_set (true) / goto_if_unset (false)
 	Arms    []Arm  // SIf: if + elif arms
 	HasElse bool
 	Else    []Stmt
@@ -162,6 +165,12 @@ func (p *printer) stmt(s *Stmt, indent int) {
 		}
 	case SGoto:
 		s.Line = p.ln(indent, "goto("+s.Name+")")
+	case SGotoIf:
+		if s.WantSet {
+			s.Line = p.ln(indent, "goto_if_set("+s.Flag+", "+s.Name+")")
+		} else {
+			s.Line = p.ln(indent, "goto_if_unset("+s.Flag+", "+s.Name+")")
+		}
 	case SBreak:
 		s.Line = p.ln(indent, "break")
 	case SContinue:
